@@ -313,3 +313,110 @@ def h_create_readonly_node(sel: int, mdmf_parent: bool) -> bool:
     if rw is None and kind != "unknown" and r is not child:
         return "an already read-only node should be kept as it is"
     return True
+
+
+# ---- unknown (future) caps whose text contains "ro." / "imm." / "URI:" somewhere after position 0 --------------------------------
+_UNK = (b"lafs://from_the_future/plain", b"lafs://from_the_future_rw/hero.dat", b"lafs://archive.imm.2048/x",
+        b"URI:FUTURE-RW:macro.cosm:xyzzy")
+_UNK_RO = b"lafs://future-readcap/zero.day"
+
+
+def h_unknown_caps(c: int, slot: int, deep_immutable: bool, via_ro: bool) -> bool:
+    """
+    pre: 0 <= c < len(_UNK) and 0 <= slot <= 2
+    post: _ == True
+    """
+    from allmydata.interfaces import MustNotBeUnknownRWError
+    cap = pick(_UNK, c)
+    nm = F.make_nodemaker()
+    if slot == 0:
+        node = nm.create_from_cap(cap, None, deep_immutable=deep_immutable, name="u")       # single cap of unknown format: cannot be diminished
+        if node.error is None or not isinstance(node.error, MustNotBeUnknownRWError):
+            return "a bare unknown cap in the write slot must be refused (it cannot be diminished to a read cap)"
+        if node.get_write_uri() is not None or node.get_readonly_uri() is not None:
+            return "refused node still carries a cap"
+        try:
+            D.pack_children({"u": (node, {})}, b"W" * 16)
+        except MustNotBeUnknownRWError:
+            return True
+        return "a refused unknown cap was packed into a directory"
+    if slot == 1:
+        node = nm.create_from_cap(None, cap, deep_immutable=deep_immutable, name="u")
+        want_ro = (b"imm." if deep_immutable else b"ro.") + cap
+        rw = None
+    else:
+        assume(not deep_immutable)
+        node = nm.create_from_cap(cap, _UNK_RO, name="u")
+        want_ro = b"ro." + _UNK_RO
+        rw = cap
+    if node.error is not None:
+        return "unexpected refusal: %r" % (node.error,)
+    if node.get_write_uri() != rw or node.get_readonly_uri() != want_ro:
+        return "unknown node holds (%r, %r), expected (%r, %r)" % (node.get_write_uri(), node.get_readonly_uri(), rw, want_ro)
+    # store it and read it back through the parent's read cap / write cap
+    parent_rw = nm.create_from_cap(F.PARENT_RW_CAP)
+    if deep_immutable:
+        packed = D.pack_children({"u": (node, {})}, None, deep_immutable=True)
+        reader = nm.create_from_cap(None, F.PARENT_IMM_CAP)
+    else:
+        packed = D.pack_children({"u": (node, {})}, parent_rw._node.get_writekey())
+        reader = nm.create_from_cap(None, F.PARENT_RO_CAP) if via_ro else parent_rw
+    if rw is not None and rw in packed:
+        return "unknown write cap appears in the directory plaintext"
+    got = reader._unpack_contents(packed)
+    c2 = got["u"][0]
+    if reader.is_readonly():
+        bad = _no_write_authority(c2)
+        if bad:
+            return "through a read-only directory: %s" % bad
+        u = c2.get_uri()
+        if not (u.startswith(b"ro.") or u.startswith(b"imm.")):
+            return "read-cap holder's cap %r is not marked read-only" % (u,)
+    elif c2.get_write_uri() != rw:
+        return "write-cap holder does not recover the unknown write cap"
+    if c2.get_readonly_uri() != want_ro:
+        return "read cap changed: %r" % (c2.get_readonly_uri(),)
+    return True
+
+
+def h_empty_dirs_isolated(k0: int, k1: int, b_readonly: bool, order: int) -> bool:
+    """
+    pre: 0 <= k0 < len(_PW_LABELS) and 0 <= k1 < len(_PW_LABELS) and 0 <= order <= 1
+    pre: B.get("sel") is None or (k0 in B["sel"] and k1 in B["sel"])
+    post: _ == True
+    """
+    # several directories handled by one process, all empty at first: what is linked into one must not show up in another
+    from allmydata.util.dictutil import AuxValueDict  # noqa: F401
+    fake = F.FakeAES()
+    saved, saved_time = D.aes, D.time
+    D.aes = fake
+    D.time = NS(time=lambda: 1202777696)        # link timestamps are C20's subject; a fixed clock keeps the metadata concrete
+    try:
+        def mk(writekey, readonly):
+            dn = D.DirectoryNode.__new__(D.DirectoryNode)
+            dn._node = NS(is_readonly=lambda: readonly, is_mutable=lambda: True, get_writekey=lambda: (None if readonly else writekey))
+            dn._nodemaker = F.RecNodeMaker()
+            return dn
+        A, Bd, C = mk(b"A" * 16, False), mk(b"B" * 16, b_readonly), mk(b"C" * 16, False)
+        ca, cc = F.tok_child(pick(_PW_LABELS, k0)), F.tok_child(pick(_PW_LABELS, k1))
+        if order == 1:
+            if len(_unpack(Bd, b"")) != 0:
+                return "empty directory lists children"
+        a_contents = D.Adder(A, {"from-a": (ca, {})}).modify(b"", None, True)
+        listed = _unpack(Bd, b"")
+        if len(listed) != 0:
+            return "an empty directory lists %r after something was linked into another directory" % (sorted(listed.keys()),)
+        c_contents = D.Adder(C, {"from-c": (cc, {})}).modify(b"", None, True)
+        got_c = _unpack(C, c_contents)
+        if sorted(got_c.keys()) != ["from-c"]:
+            return "first add into an empty directory stored %r" % (sorted(got_c.keys()),)
+        if got_c["from-c"][0].made_from[0] != cc.rw:
+            return "child write cap not recovered by its own directory"
+        if ca.rw is not None and ca.rw in c_contents:
+            return "foreign write cap in another directory's plaintext"
+        got_a = _unpack(A, a_contents)
+        if sorted(got_a.keys()) != ["from-a"] or got_a["from-a"][0].made_from[0] != ca.rw:
+            return "directory A lost its child"
+    finally:
+        D.aes, D.time = saved, saved_time
+    return True
